@@ -607,15 +607,18 @@ pub fn run(run: &mut Run) -> Result<(), String> {
     let sub8: Vec<u8> = vec![63, 60, 56, 36, 35, 31, 9, 0];
     match prop.as_str() {
         "C01" | "C02" => {
+            // C02 checks every outgoing edge of every visited state (also at the frontier), so the
+            // "explore one ply" universes are run at depth 0 for it
+            let d1 = if prop == "C01" { 1 } else { 0 };
             if pext {
                 // second slider back end: everything except the largest sweeps
                 plan.mid = Some(if q { b(2, 0) } else { b(3, 1) });
-                plan.raws.push((Box::new(Castle { extra: 1 }), b(0, 0)));
+                plan.raws.push((Box::new(Castle { extra: 1, ek_rank2: false }), b(0, 0)));
                 plan.raws.push((Box::new(EpUniverse::reduced()), b(0, 0)));
                 plan.raws.push((Box::new(DoubleCheck { kings: vec![4, 27], own_kinds: vec![Kind::P, Kind::N] }), b(0, 0)));
                 plan.lines = Some(b(1, 0));
                 if !q {
-                    plan.raws.push((Box::new(TwoLines { enemy_kings: vec![35] }), b(1, 0)));
+                    plan.raws.push((Box::new(TwoLines { enemy_kings: vec![35] }), b(d1, 0)));
                     plan.start = Some(b(4, 0));
                     plan.r960 = Some(b(1, 0));
                     plan.raws.push((Box::new(ThreeMen { bk: None }), b(0, 0)));
@@ -630,22 +633,26 @@ pub fn run(run: &mut Run) -> Result<(), String> {
                 plan.dfrc = Some((0..960, 8, b(0, 0)));
                 plan.lines = Some(b(2, 1));
                 plan.raws.push((Box::new(ThreeMen { bk: None }), b(0, 0)));
-                plan.raws.push((Box::new(Castle { extra: 1 }), b(0, 0)));
+                plan.raws.push((Box::new(Castle { extra: 1, ek_rank2: false }), b(0, 0)));
                 plan.raws.push((Box::new(EpUniverse::reduced()), b(0, 0)));
                 plan.raws.push((Box::new(Checks { n: 2 }), b(0, 0)));
                 plan.raws.push((Box::new(DoubleCheck { kings: vec![4, 27], own_kinds: vec![Kind::P, Kind::N] }), b(0, 0)));
-                plan.raws.push((Box::new(TwoLines { enemy_kings: vec![35] }), b(1, 0)));
-                plan.raws.push((Box::new(EpUniverse::own_sliders()), b(1, 0)));
+                plan.raws.push((Box::new(TwoLines { enemy_kings: vec![35] }), b(d1, 0)));
+                plan.raws.push((Box::new(EpUniverse::own_sliders()), b(d1, 0)));
                 plan.raws.push((Box::new(CheckPin { kings: vec![4, 27] }), b(0, 0)));
                 plan.raws.push((Box::new(CastleBox { max_items: 3 }), b(0, 0)));
                 plan.raws.push((Box::new(EpExposure), b(0, 0)));
+                plan.raws.push((Box::new(Castle { extra: 0, ek_rank2: true }), b(0, 0)));
+                plan.raws.push((Box::new(EpUniverse::before_push(q)), b(d1, 0)));
             } else {
-                plan.raws.push((Box::new(EpExposure), b(1, 0)));
+                plan.raws.push((Box::new(Castle { extra: 1, ek_rank2: true }), b(0, 0)));
+                plan.raws.push((Box::new(EpUniverse::before_push(q)), b(d1, 0)));
+                plan.raws.push((Box::new(EpExposure), b(d1, 0)));
                 plan.raws.push((Box::new(CheckPin { kings: vec![4, 27, 0, 60] }), b(0, 0)));
                 plan.raws.push((Box::new(CastleBox { max_items: 4 }), b(1, 0)));
                 plan.lines = Some(b(3, 2));
                 plan.raws.push((Box::new(DoubleCheck { kings: vec![4, 27, 0, 60], own_kinds: NONKING.to_vec() }), b(0, 0)));
-                plan.raws.push((Box::new(TwoLines { enemy_kings: vec![35, 60, 63] }), b(1, 0)));
+                plan.raws.push((Box::new(TwoLines { enemy_kings: vec![35, 60, 63] }), b(d1, 0)));
                 plan.start = Some(b(5, 1));
                 plan.mid = Some(b(3, 2));
                 plan.r960 = Some(b(3, 0));
@@ -658,7 +665,7 @@ pub fn run(run: &mut Run) -> Result<(), String> {
                 if prop == "C01" {
                     plan.raws.push((Box::new(NMen { kings: vec![(4, 60), (0, 10)], n: 3 }), b(0, 0)));
                 }
-                plan.raws.push((Box::new(Castle { extra: 2 }), b(0, 0)));
+                plan.raws.push((Box::new(Castle { extra: 2, ek_rank2: false }), b(0, 0)));
                 plan.raws.push((Box::new(EpUniverse::full()), b(1, 0)));
                 plan.raws.push((Box::new(Checks { n: 3 }), b(0, 0)));
             }
@@ -671,12 +678,14 @@ pub fn run(run: &mut Run) -> Result<(), String> {
                 plan.clock = Some(b(2, 1));
                 plan.lines = Some(b(2, 1));
                 plan.raws.push((Box::new(ThreeMen { bk: Some(sub8.clone()) }), b(1, 1)));
-                plan.raws.push((Box::new(Castle { extra: 1 }), b(1, 1)));
+                plan.raws.push((Box::new(Castle { extra: 1, ek_rank2: false }), b(1, 1)));
                 plan.raws.push((Box::new(EpUniverse::reduced()), b(1, 1)));
                 plan.raws.push((Box::new(TwoLines { enemy_kings: vec![35] }), b(1, 1)));
                 plan.raws.push((Box::new(EpUniverse::own_sliders()), b(1, 0)));
+                plan.raws.push((Box::new(EpUniverse::before_push(q)), b(1, 0)));
             } else {
                 plan.lines = Some(b(3, 2));
+                plan.raws.push((Box::new(EpUniverse::before_push(q)), b(1, 1)));
                 plan.raws.push((Box::new(TwoLines { enemy_kings: vec![35, 60, 63] }), b(1, 1)));
                 plan.raws.push((Box::new(DoubleCheck { kings: vec![4, 27], own_kinds: vec![Kind::P, Kind::N, Kind::R] }), b(1, 0)));
                 plan.start = Some(b(5, 1));
@@ -686,7 +695,7 @@ pub fn run(run: &mut Run) -> Result<(), String> {
                 plan.dfrc = Some((0..960, 1, b(0, 0)));
                 plan.raws.push((Box::new(ThreeMen { bk: None }), b(1, 1)));
                 plan.raws.push((Box::new(FourMen { kings: Some(six_king_placements()), with_flags: true }), b(1, 1)));
-                plan.raws.push((Box::new(Castle { extra: 2 }), b(1, 1)));
+                plan.raws.push((Box::new(Castle { extra: 2, ek_rank2: false }), b(1, 1)));
                 plan.raws.push((Box::new(EpUniverse::full()), b(1, 1)));
                 plan.raws.push((Box::new(Checks { n: 3 }), b(0, 0)));
             }
@@ -696,15 +705,17 @@ pub fn run(run: &mut Run) -> Result<(), String> {
                 plan.start = Some(b(2, 1));
                 plan.mid = Some(b(1, 1));
                 plan.raws.push((Box::new(ThreeMen { bk: Some(sub8.clone()) }), b(0, 0)));
-                plan.raws.push((Box::new(Castle { extra: if prop == "C16" { 0 } else { 1 } }), b(0, 0)));
+                plan.raws.push((Box::new(Castle { extra: if prop == "C16" { 0 } else { 1 }, ek_rank2: false }), b(0, 0)));
                 plan.raws.push((Box::new(Checks { n: 2 }), b(0, 0)));
                 plan.raws.push((Box::new(EpUniverse::small()), b(0, 0)));
                 plan.raws.push((Box::new(DoubleCheck { kings: vec![4], own_kinds: vec![Kind::P] }), b(0, 0)));
                 plan.raws.push((Box::new(CheckPin { kings: vec![4, 27] }), b(0, 0)));
                 plan.raws.push((Box::new(CastleBox { max_items: 2 }), b(0, 0)));
                 plan.raws.push((Box::new(EpExposure), b(0, 0)));
+                plan.raws.push((Box::new(Castle { extra: 0, ek_rank2: true }), b(0, 0)));
                 plan.lines = Some(b(1, 1));
             } else {
+                plan.raws.push((Box::new(Castle { extra: 1, ek_rank2: true }), b(0, 0)));
                 plan.raws.push((Box::new(EpExposure), b(0, 0)));
                 plan.raws.push((Box::new(CheckPin { kings: vec![4, 27, 0, 60] }), b(0, 0)));
                 plan.raws.push((Box::new(CastleBox { max_items: 3 }), b(0, 0)));
@@ -716,7 +727,7 @@ pub fn run(run: &mut Run) -> Result<(), String> {
                 plan.r960 = Some(b(1, 0));
                 plan.clock = Some(b(1, 0));
                 plan.raws.push((Box::new(ThreeMen { bk: None }), b(0, 0)));
-                plan.raws.push((Box::new(Castle { extra: 2 }), b(0, 0)));
+                plan.raws.push((Box::new(Castle { extra: 2, ek_rank2: false }), b(0, 0)));
                 plan.raws.push((Box::new(Checks { n: 2 }), b(0, 0)));
                 plan.raws.push((Box::new(EpUniverse::full()), b(0, 0)));
                 plan.raws.push((Box::new(FourMen { kings: Some(six_king_placements()), with_flags: false }), b(0, 0)));
@@ -728,7 +739,7 @@ pub fn run(run: &mut Run) -> Result<(), String> {
                 plan.start = Some(b(2, 1));
                 plan.mid = Some(b(1, 1));
                 plan.raws.push((Box::new(ThreeMen { bk: Some(vec![63]) }), b(0, 0)));
-                plan.raws.push((Box::new(Castle { extra: 0 }), b(0, 0)));
+                plan.raws.push((Box::new(Castle { extra: 0, ek_rank2: false }), b(0, 0)));
                 plan.raws.push((Box::new(Checks { n: 1 }), b(0, 0)));
                 plan.raws.push((Box::new(DoubleCheck { kings: vec![4], own_kinds: vec![Kind::P] }), b(0, 0)));
                 plan.raws.push((Box::new(CheckPin { kings: vec![27] }), b(0, 0)));
@@ -745,7 +756,7 @@ pub fn run(run: &mut Run) -> Result<(), String> {
                 plan.r960 = Some(b(1, 0));
                 plan.clock = Some(b(1, 0));
                 plan.raws.push((Box::new(ThreeMen { bk: None }), b(0, 0)));
-                plan.raws.push((Box::new(Castle { extra: 2 }), b(0, 0)));
+                plan.raws.push((Box::new(Castle { extra: 2, ek_rank2: false }), b(0, 0)));
                 plan.raws.push((Box::new(Checks { n: 2 }), b(0, 0)));
                 plan.raws.push((Box::new(EpUniverse::full()), b(0, 0)));
             }
@@ -762,7 +773,7 @@ pub fn run(run: &mut Run) -> Result<(), String> {
                 plan.start = Some(b(2, 1));
                 plan.mid = Some(b(1, 1));
                 plan.clock = Some(b(0, 0));
-                plan.raws.push((Box::new(Castle { extra: 0 }), b(0, 0)));
+                plan.raws.push((Box::new(Castle { extra: 0, ek_rank2: false }), b(0, 0)));
             }
         }
         _ => unreachable!(),
